@@ -263,6 +263,7 @@ Section ChangePoint.
 
   Definition cp_grad := cp_grad_with (cp_wgrad 1).
   Definition cp_grad_pinned := cp_grad_with cp_wgrad_pinned.
+  Definition changepoint_grad_pinned := cp_grad_pinned.      (* name used in DESIGN.md *)
 
   Definition cp_diag (xs : list pt) (th : list R) (i : nat) : R :=
     wsum (each ks (cov_slc ks) (fun k t => kdiag k xs t i) th)
